@@ -408,6 +408,8 @@ structure InsPlan where
   /-- `dst.entry` after `remove(replaced_idx)` -/
   entries : List Entry
   isNew : Bool
+  /-- this session's Source (`Arc::ptr_eq`) already holds a path of the destination -/
+  sessHas : Bool
   deriving Repr
 
 def insertPlan (t : Table) (src : Src) (fam : Fam) (net : Net) (rpid : Nat) : InsPlan :=
@@ -426,14 +428,15 @@ def insertPlan (t : Table) (src : Src) (fam : Fam) (net : Net) (rpid : Nat) : In
   let entries := match ridx with
     | some i => dst.entries.eraseIdx i
     | none => dst.entries
-  { rib, dst, oldBest := bestKey dst.entries, replaced, entries, isNew := replaced.isNone && !peerHasPath }
+  { rib, dst, oldBest := bestKey dst.entries, replaced, entries, isNew := replaced.isNone && !peerHasPath,
+    sessHas := dst.entries.any fun e => e.src.id == src.id }
 
-/-- `PrefixLimitExceeded`: nothing was inserted; a destination created just for this path is
-    released again. -/
+/-- `PrefixLimitExceeded`: the limit is checked before anything is modified; a destination created
+    just for this path is released again. -/
 def insertLimit (t : Table) (fam : Fam) (net : Net) (pl : InsPlan) : Table :=
-  let rib := if pl.entries.isEmpty then
+  let rib := if pl.dst.entries.isEmpty then
       { pl.rib with dests := aerase net pl.rib.dests, used := pl.rib.used.erase pl.dst.id }
-    else { pl.rib with dests := aset net { pl.dst with entries := pl.entries } pl.rib.dests }
+    else { pl.rib with dests := aset net pl.dst pl.rib.dests }
   t.setRib fam rib
 
 /-- the `route_stats` update of `insert` -/
@@ -453,7 +456,7 @@ def insertStats (p : Profile) (st : Nat × Nat) (replaced : Option Entry) (isNew
 def insertCommit (t : Table) (src : Src) (fam : Fam) (net : Net) (rpid : Nat) (nh : Option Nat) (attr : Attrs)
     (filtered nhInv : Bool) (pl : InsPlan) (aslen : Nat) (st : Nat × Nat) : Table × Res :=
   let ck := (src.id, fam)
-  let ctrs := if pl.isNew && src.lim.isSome then aset ck (atomicInc (t.ctr ck)) t.ctrs else t.ctrs
+  let ctrs := if !pl.sessHas && src.lim.isSome then aset ck (atomicInc (t.ctr ck)) t.ctrs else t.ctrs
   let (lpid, dst) : Nat × Dest := match pl.replaced with
     | some old => (old.lpid, { pl.dst with entries := pl.entries })
     | none => allocPathId { pl.dst with entries := pl.entries }
@@ -471,7 +474,8 @@ def insertCommit (t : Table) (src : Src) (fam : Fam) (net : Net) (rpid : Nat) (n
 def Table.insert (p : Profile) (t : Table) (src : Src) (fam : Fam) (net : Net) (rpid : Nat)
     (nh : Option Nat) (attr : Attrs) (filtered nhInv : Bool) : Out (Table × Res) :=
   let pl := insertPlan t src fam net rpid
-  let limitHit := pl.isNew && (match src.lim with | some max => t.ctr (src.id, fam) ≥ max | none => false)
+  -- the limit counter is per session: a prefix is new to it when its own Source holds no path yet
+  let limitHit := !pl.sessHas && (match src.lim with | some max => t.ctr (src.id, fam) ≥ max | none => false)
   if limitHit then .ok (insertLimit t fam net pl, .limit)
   else
     match attr.asPathLen p with
@@ -495,9 +499,11 @@ def removeStats (p : Profile) (st : Nat × Nat) (peerGone : Nat) (removedAccepte
 def removeCommit (t : Table) (src : Src) (fam : Fam) (net : Net) (dst : Dest) (removed : Entry)
     (entries : List Entry) (st : Nat × Nat) : Table × Res :=
   let rib := t.rib fam
-  let peerStill := entries.any (sameAddr src.addr)
   let ck := (src.id, fam)
-  let ctrs := if !peerStill && src.lim.isSome then aset ck (atomicDec (t.ctr ck)) t.ctrs else t.ctrs
+  -- the counter follows the paths of the session's own Source only
+  let sessStill := entries.any fun e => e.src.id == src.id
+  let ctrs := if removed.src.id == src.id && !sessStill && src.lim.isSome
+    then aset ck (atomicDec (t.ctr ck)) t.ctrs else t.ctrs
   let stats := aset (src.addr, fam) st t.stats
   let wasUnfiltered := !removed.filtered
   if entries.isEmpty then
